@@ -576,7 +576,38 @@ func (fc *FnCtx) applyContract(s *CallSite, ct *FuncContract, callee *ssa.Functi
 	} else {
 		ws.All = true
 	}
+	var elemSnap []struct {
+		mem string
+		old Term
+		sl  Term
+	}
+	for _, pn := range ws.ElemsOf {
+		bv, ok := bind[pn]
+		if !ok {
+			fc.fail("modifies elems(%s): no such slice parameter in contract of %s", pn, ct.Name)
+		}
+		if bv.p != nil {
+			bv = specVal{t: fc.loadPlaceIn(fc.env, bv.p), ty: bv.ty}
+		}
+		st, isSlice := bv.ty.Underlying().(*types.Slice)
+		if !isSlice {
+			fc.fail("modifies elems(%s): not a slice", pn)
+		}
+		mem := fc.memVar(st.Elem())
+		elemSnap = append(elemSnap, struct {
+			mem string
+			old Term
+			sl  Term
+		}{mem, fc.lookup(mem), bv.t})
+		ws.add(mem)
+	}
 	fc.applyWriteSet(ws)
+	for _, es := range elemSnap {
+		now := fc.lookup(es.mem)
+		// other arrays unchanged; inside the slice's array only [off, off+len) may change
+		fc.assume(T(SBool, "(forall ((a Int)) (! (=> (not (= a (s_arr %[1]s))) (= (select %[2]s a) (select %[3]s a))) :pattern ((select %[2]s a))))", es.sl.S, now.S, es.old.S))
+		fc.assume(T(SBool, "(forall ((j Int)) (! (=> (or (< j (s_off %[1]s)) (>= j (+ (s_off %[1]s) (s_len %[1]s)))) (= (select (select %[2]s (s_arr %[1]s)) j) (select (select %[3]s (s_arr %[1]s)) j))) :pattern ((select (select %[2]s (s_arr %[1]s)) j))))", es.sl.S, now.S, es.old.S))
+	}
 	fc.freshResults(s)
 	for i, r := range s.results {
 		bind[fmt.Sprintf("$r%d", i)] = specVal{t: r, ty: s.resT[i]}
@@ -986,7 +1017,31 @@ func (fc *FnCtx) frameObligations(x *ssa.Return) {
 		return
 	}
 	allocEntry := fc.lookupIn(fc.entryEnv, "alloc")
+	// elems(p): inside Mem_T only the elements of slice p (entry value) may change
+	elemsMem := map[string]Term{}
+	for _, pn := range declared.ElemsOf {
+		sc := fc.funcScope(fc.entryEnv, fc.entryEnv, nil)
+		sc.mode = "pre"
+		v, ok := sc.lookupIdent(pn)
+		if !ok {
+			fc.fail("modifies elems(%s): unknown name", pn)
+		}
+		st, isSlice := v.ty.Underlying().(*types.Slice)
+		if !isSlice {
+			fc.fail("modifies elems(%s): not a slice", pn)
+		}
+		elemsMem[fc.memVar(st.Elem())] = sc.valTerm(v)
+	}
 	for _, n := range sortedKeys(fc.svHeap) {
+		if sl, ok := elemsMem[n]; ok {
+			now, was := fc.lookup(n), fc.lookupIn(fc.entryEnv, n)
+			if now.S != was.S {
+				fc.assert("frame", fmt.Sprintf("%s:frame(%s)%s", fc.name, n, suffix),
+					T(SBool, "(and (forall ((a Int)) (=> (and (<= a %[1]s) (not (= a (s_arr %[2]s)))) (= (select %[3]s a) (select %[4]s a)))) (forall ((j Int)) (=> (or (< j (s_off %[2]s)) (>= j (+ (s_off %[2]s) (s_len %[2]s)))) (= (select (select %[3]s (s_arr %[2]s)) j) (select (select %[4]s (s_arr %[2]s)) j)))))", allocEntry.S, sl.S, now.S, was.S),
+					"only the elements of the named slice are written in "+n, x.Pos(), false)
+			}
+			continue
+		}
 		if !fc.svHeap[n] || (declared.Names[n] && !declared.Fresh[n]) {
 			continue
 		}
